@@ -531,7 +531,7 @@ fn gen(dir: &str) {
         let res = guarded(move || exec(&toks));
         out.emit(&case, &res);
     };
-    let scale = if thorough { 12 } else { 1 };
+    let scale = if thorough { 40 } else { 3 };
 
     // 1. one builder at a time: random item sets in random insertion order (items may repeat: re-adding)
     for which in 0..6 {
@@ -550,7 +550,7 @@ fn gen(dir: &str) {
     let kmax = if thorough { 6 } else { 4 };
     for which in 0..6 {
         for k in 2..=kmax {
-            let reps = if k <= 4 { 3 } else { 1 };
+            let reps = if k <= 4 { 3 } else if thorough { 3 } else { 1 };
             for _ in 0..reps {
                 let mut g = Gen::new(&mut r);
                 let mut items: Vec<Op> = vec![];
